@@ -141,6 +141,7 @@ int main(int argc, char** argv)
         else if (c.op.rfind("p5", 0) == 0) out = probe5(c);
         else if (c.op.rfind("p6", 0) == 0) out = probe6(c);
         else if (c.op.rfind("p7", 0) == 0) out = probe7(c);
+        else if (c.op.rfind("p8", 0) == 0) out = probe8(c);
         else out = "NO-INSTANCE " + key;
       }
     } catch (const std::exception& e) { out = std::string("THROWN ") + e.what(); }
